@@ -44,7 +44,8 @@ def main(argv: List[str]) -> int:
     r = core.rng('c14')
     for seed, doc in ds:
         plan = docs.form_plan(nrand, False, seed) + [(None, {'comment_style': 'block'}), (None, {'comment_place': 'trailing'}),
-                                                       (None, {'comment_place': 'trailing', 'comment_style': 'block'})]
+                                                       (None, {'comment_place': 'trailing', 'comment_style': 'block'}), (None, {'comment_place': 'both'}),
+                                                       (None, {'comment_place': 'both', 'comment_style': 'block'})]
         for fseed, pinned in plan:
             tid += 1
             items[tid] = {'tid': tid, 'doc': doc, 'allow': False, 'want': 'model', 'fseed': fseed, 'pinned': pinned,
@@ -68,6 +69,9 @@ def main(argv: List[str]) -> int:
                           'seed': seed, 'gen': 'Commented', 'variant': 'inert-random', 'noise': noise}
     res = docs.run_items(list(items.values()), rep, 'C14')
     doccheck.judge('C14', rep, res, items, lambda it: True)
+    from . import census
+    rep.census.require('C14', ['table.comment', 'col.comment', 'idx.comment', 'enum.comment', 'enum.item.comment', 'ref.comment', 'group.comment',
+                               'project.comment', 'comment.multiline', 'comment.empty_line', 'doc.tableless'], rep, 'parse-side documents')
     # output side: every renderer emits the comment with its element (-- lines in SQL, // lines in
     # DBML placed so that the DBML output parses back to the same comment)
     from . import sqlcheck, render, c02
